@@ -22,3 +22,25 @@ func panicSite() string {
 	}
 	return "?"
 }
+
+// defraFrames: the three innermost DefraDB frames of the caller (creation site of an iterator).
+func defraFrames() string {
+	var pcs [40]uintptr
+	n := runtime.Callers(3, pcs[:])
+	frames := runtime.CallersFrames(pcs[:n])
+	var out []string
+	for {
+		f, more := frames.Next()
+		if strings.Contains(f.Function, "sourcenetwork/defradb/") && !strings.Contains(f.Function, "verifsim") {
+			i := strings.LastIndex(f.Function, "/")
+			out = append(out, f.Function[i+1:])
+			if len(out) == 4 {
+				break
+			}
+		}
+		if !more {
+			break
+		}
+	}
+	return strings.Join(out, " <- ")
+}
